@@ -3,6 +3,8 @@ from ..common import Report
 from ..corpus import load, load_repo_tests, load_repo_examples
 from ..docgen import load_repo_docs
 from ..crossgen import load_cross
+from ..modgen import load_modseq
+from ..common import CheckError
 from ..wrules import FnModView, trait_methods, last_seg, check_fnmod_delegation
 from .c13 import resolve_vis
 
@@ -13,6 +15,8 @@ def run(tier):
     programs = 0
     loaded = [(cfg, load(rep, "pos", cfg)) for cfg in configs]
     loaded += [(cfg, load_cross(rep, cfg, tier)) for cfg in configs]
+    # script-enumerated item sequences (singles, edges, adjacent pairs over a 66-element alphabet)
+    loaded += [(cfg, load_modseq(rep, cfg, tier)) for cfg in (["plain"] if tier == "quick" else ["plain", "unimock_test"])]
     if tier == "thorough":
         loaded.append(("unimock_test", load_repo_tests(rep)))
         loaded += [("unimock_test", ld) for ld in load_repo_examples(rep)]
@@ -33,8 +37,15 @@ def run(tier):
             want = [last_seg(o["path"]) for o in v.all_fns if o.get("vis_written")]
             private = [last_seg(o["path"]) for o in v.all_fns if not o.get("vis_written")]
             got = [last_seg(m["path"]) for m in trait_methods(crate, v.trait)]
+            gen_wants = getattr(crate, "modseq_wants", None)
+            if gen_wants is not None:
+                i = int(last_seg(v.scope)[1:])
+                if gen_wants[i] != want:
+                    raise CheckError("modgen: generator expects methods %s for module %s but rustc's item tree says %s" % (gen_wants[i], v.scope, want))
+                rep.count("module_sequences_checked")
             rep.count("functions_classified", len(v.all_fns))
-            rep.sample({"module": v.scope, "config": cfg, "trait_methods": got, "private_fns": private})
+            if len(rep.samples) < 12:
+                rep.sample({"module": v.scope, "config": cfg, "trait_methods": got, "private_fns": private})
             if got != want:
                 extra = [g for g in got if g not in want]
                 missing = [w for w in want if w not in got]
@@ -64,8 +75,9 @@ def run(tier):
                     rep.add("R-REEXPORT", key0 + " reexport-vis", "parent sees `%s` -> `%s` with visibility %s; expected the generated trait with %s"
                             % (e["name"], e["res"], e["vis"], want_vis), where=exp.label())
     rep.floor("modules_checked", 24)
+    rep.floor("module_sequences_checked", 500)
     rep.floor("functions_classified", 80)
     rep.coverage.update({"programs": programs, "disagreements_checked": rep.counters.get("functions_classified", 0),
-                         "explanation": "for every mod-input expansion: ordered list of the generated trait's methods == ordered list of Fn items whose DefId parent is the module itself and whose HIR visibility span is non-empty (oracle from rustc's own item tree, independent of the macro's token splitter: functions in impls, nested modules, extern blocks, macro_rules bodies and const blocks have other parents); each method delegates to its own function; a `use` defined by the same expansion makes the trait nameable from the parent with the requested visibility. Witness matrix: qualifier combinations async/unsafe/extern/const x visibilities pub, pub(crate), pub(super), pub(in path), pub(self), interleaved with 15 other item kinds containing `fn` tokens.",
+                         "explanation": "for every mod-input expansion: ordered list of the generated trait's methods == ordered list of Fn items whose DefId parent is the module itself and whose HIR visibility span is non-empty (oracle from rustc's own item tree, independent of the macro's token splitter: functions in impls, nested modules, extern blocks, macro_rules bodies and const blocks have other parents); each method delegates to its own function; a `use` defined by the same expansion makes the trait nameable from the parent with the requested visibility. Witness matrix: qualifier combinations async/unsafe/extern/const x visibilities pub, pub(crate), pub(super), pub(in path), pub(self), interleaved with 15 other item kinds containing `fn` tokens. Script-enumerated item sequences (vlib/modgen.py): an alphabet of 50 opaque module items (structs/enums/unions with fn-pointer fields and `=` defaults, consts/statics with block, struct-literal, if/else and closure initialisers, type aliases, uses with braces, extern crate, inherent/trait/unsafe impls incl. `impl Tr for fn() -> u8` and where clauses with `Item = u8`, traits, nested modules, extern blocks, macro_rules and macro invocations, private fns of every qualifier, cfg'd body-less fn, derive/doc attributes, visibility-prefixed non-fn items) and 16 visible-function forms; every element alone between two visible functions and at the very start and end of a module, every opaque element adjacent to four visible kinds in both orders (quick), every ordered pair of elements adjacent (thorough, 4 488 modules). The generator's own expectation is cross-checked against the rustc oracle.",
                          "configs": configs})
     return rep.finish()
